@@ -946,6 +946,13 @@ func (env *specEnv) evalCall(n *ast.CallExpr) Value {
 			return PoisonV{"safe_ argument"}
 		}
 		return e.safeOf(st, 0)
+	case "lastrecv_":
+		// lastrecv_(ch): the last receive completed so far was on channel ch
+		ch, ok := env.eval(n.Args[0]).(*Term)
+		if !ok {
+			return PoisonV{"lastrecv_ argument"}
+		}
+		return c.Eq(c.Select(e.heapGet(env.state(), "chan#lastrecv", Array(Int, Int)), c.IntC(0)), ch)
 	case "closed_":
 		// the channel has been closed (ghost bit maintained by close())
 		ch, ok := env.eval(n.Args[0]).(*Term)
